@@ -14,8 +14,8 @@ from ..translate import arith, bocemit
 
 SPEC = dict(
     translators=[('cell.py to_boc widths->Generated/BocWidths.lean', arith.regenerator('BocWidths')),
-                 ('cell.py Cell.serialize, order, to_boc; deserialize.py Boc.__init__->Generated/BocEmitSrc.lean', bocemit.regenerate)],
-    lean_targets=['TonVerif.Proofs.SrcBocWidths', 'TonVerif.Proofs.SrcBocEmit'],
+                 (bocemit.TIE_NAME, bocemit.regenerate_tied)],
+    lean_targets=['TonVerif.Proofs.SrcBocWidths', 'TonVerif.Proofs.SrcBocEmit', 'TonVerif.Proofs.SrcOrderAny', 'TonVerif.Proofs.SrcBocAny'],
     manifest=dict(
         category='proof',
         text='Lean proves THE PROPERTY for all inputs (c04_conforms): for every spec-valid tree of cells (ordinary, pruned, library, Merkle proof/update; any nesting and sharing; C02 TreeWF) whose exotic '
@@ -29,9 +29,14 @@ SPEC = dict(
              'DAG with the one the library holds; the emitter model is tied to the code byte-for-byte on the same inputs. '
              'TIE TO THE SOURCE (whole emitter): Cell.serialize, Cell.order and Cell.to_boc are REGENERATED from cell.py on every run (harness/translate/bocemit.py, pydict.py -> '
              'Generated/BocEmitSrc.lean; a constructed Cell = PCell, dicts / sets of cells = insertion-ordered association lists keyed by __hash__, while stack: with an iteration budget) and Lean '
-             'proves for ALL cell objects, option sets and budgets that they equal the hand model (c04_src_serialize, c04_src_order, c04_src_to_boc); hence c04_src_conforms / c04_src_conforms_total: '
-             'the strict reader accepts the bytes of the REGENERATED emitter and decodes them to the same DAG; c04_src_order_total: budget 6*cells+2 suffices. A change of any line of these methods '
-             'breaks a proof obligation; the check then compares regenerated vs hand model in Lean on boundary DAGs and judges the differing ones first.',
+             'proves for ALL cell objects, option sets and budgets: Cell.serialize and the layout part of Cell.to_boc equal the (order agnostic) hand model (c04_src_serialize, c04_src_to_boc_any); the '
+             'regenerated Cell.order returns a VALID ORDER - root first, every distinct cell once, references strictly forward - by an invariant of its own while loop, for whichever order it pushes the '
+             'references in (c04_src_order_valid_any), and terminates within 1+n+e iterations (c04_src_order_total, C19 c19_src_order_linear); composed with c04_conforms_any_order: c04_src_conforms_any_order / '
+             'c04_src_conforms(_total): the strict reader accepts the bytes of the REGENERATED emitter and decodes them to the same DAG. Separately (Properties/C04Model.lean, built and audited by the '
+             'translator step, not a lake target of the check): the regenerated traversal EQUALS the hand model PCell.order / PCell.toBoc (c04_src_order, c04_src_to_boc). A change of any line of these '
+             'methods breaks a proof obligation; the check then compares regenerated vs hand model in Lean on boundary DAGs and judges the differing ones first. Exception, sound by construction: if ONLY '
+             'the model equality of the traversal breaks while every theorem of Properties/C04.lean about the regenerated code still builds and audits (the source switched to another valid visiting '
+             'order), the run reports traversal tie = valid-order-only (evidence + NOTE line) and the byte-for-byte correspondence is taken modulo a valid order (counter order-differs-from-model-but-valid).',
         level_note='Trusted: Lean kernel (propext, Classical.choice, Quot.sound); Spec/Boc.lean (+ Spec/Cell.lean, Spec/Crc.lean) as the transcription of boc.tlb, tvm.pdf 3.1.4 and the reference-node checks; '
                    'Model/BocEmit.lean: Cell.order/serialize/to_boc are proved equal to the functions regenerated from the source (trusted instead: the translator pydict.py/pyobj.py/pybytes.py, '
                    'its declared interface in bocemit.py - PCell reading of a Cell, _descriptors/_data_bytes as stored by __init__, dict keys by __hash__/__eq__, order returns the dict it fills, '
@@ -46,7 +51,7 @@ SPEC = dict(
          'chains to depth 1023, exactly 127/128/254..257 cells, payload exactly 126..129/254..257/32767/32768/65535/65536 bytes, one 3000-cell DAG '
          '(thorough: 65535/65536/65537/70000 cells); each x 6 option sets; distinct = distinct (dag, root, option set); non-trivial = more than one cell or non-empty data',
     trusted_base=['Spec/Boc.lean transcribes boc.tlb serialized_boc#b5ee9c72 + the reference node\'s checks (independent of the library\'s parser)',
-                  'Model/BocEmit.lean: Cell.order / Cell.serialize / Cell.to_boc are proved equal to the functions regenerated from cell.py on every run (c04_src_*; trusted: translator pydict.py / pyobj.py / pybytes.py, the declared interface in bocemit.py, PyDict.lean)',
+                  'Model/BocEmit.lean: Cell.serialize / the layout of Cell.to_boc are proved equal to the functions regenerated from cell.py on every run; the regenerated Cell.order is proved to return a valid order by its own loop invariant (c04_src_order_valid_any) and, separately, equal to the hand traversal (Properties/C04Model.lean) (trusted: translator pydict.py / pyobj.py / pybytes.py, the declared interface in bocemit.py, PyDict.lean)',
                   'harness/boc_strict.py: the same strict reader in Python (replays do not depend on the driver)',
                   'SHA-256 is an abstract parameter H in all theorems; the driver uses lean/TonVerif/Sha256.lean'],
     assumptions=['correspondence is sampled differential testing of model vs library (in addition to the source tie of the emitter)',
@@ -224,6 +229,11 @@ def run(ctx):
     for r in range(0, 40, 3):
         check_case(ctx, batch, f'inner{r}', nodes, r)
     batch.flush()
+    if bocemit.valid_order_only(ctx):
+        # the traversal's MODEL EQUALITY (Properties/C04Model.lean) is broken, the property theorems about the regenerated emitter are
+        # proved (core built and audited Properties/C04.lean): not a broken obligation.  The byte-for-byte correspondence above
+        # already compares modulo a valid order; a mismatch there is a broken correspondence as always.
+        bocemit.note_valid_order_only(ctx)
 
 
 def replay(ctx, payload):
